@@ -279,7 +279,7 @@ def _custom_win(L):
 
 @st.composite
 def analysis_config(draw, N, schedulers=("ltf", "vectorized_ltf", "new_ltf", "lpsd"), backends=("numba", "numpy"),
-                    orders=(-1, 0, 1, 2), Jmax=120, Kmax=60, windows=None):
+                    orders=(-1, 0, 1, 2), Jmax=120, Kmax=60, windows=None, custom=False):
     cfg = {
         "scheduler": draw(st.sampled_from(list(schedulers))),
         "order": draw(st.sampled_from(list(orders))),
@@ -300,7 +300,56 @@ def analysis_config(draw, N, schedulers=("ltf", "vectorized_ltf", "new_ltf", "lp
     }
     if not (cfg["bmin"] < N / 2.0):
         cfg["bmin"] = 1.0
+    if custom and draw(st.integers(0, 4)) == 4:
+        # a user-written scheduler with its own segmentation (the analyzer accepts any in-bounds starts with K = len(D))
+        cfg["sched_as"] = "custom"
+        cfg["custom"] = {"seed": draw(st.integers(0, 10 ** 6)), "nf": draw(st.integers(2, 10)),
+                         "style": draw(st.sampled_from(["shared_LK", "shared_LK", "free"])), "sort": draw(st.booleans())}
     return cfg
+
+
+def custom_scheduler(spec):
+    """A user-supplied scheduler that does not delegate to the library: `nf` bins, segment lengths >= Lmin, any in-bounds
+    starts.  Style 'shared_LK': the bins use only one or two (L, K) combinations but each bin has its own starts."""
+    def user_plan(**a):
+        N, fs, Lmin = int(a["N"]), float(a["fs"]), max(1, int(a["Lmin"]))
+        rng = np.random.default_rng(spec["seed"])
+        nf = int(spec["nf"])
+        if spec["style"] == "shared_LK":
+            combos = [(int(rng.integers(Lmin, max(Lmin, N // 2) + 1)), int(rng.integers(1, 9))) for _ in range(int(rng.integers(1, 3)))]
+            LK = [combos[int(rng.integers(0, len(combos)))] for _ in range(nf)]
+        else:
+            LK = [(int(round(np.exp(rng.uniform(np.log(Lmin), np.log(N))))), int(rng.integers(1, 11))) for _ in range(nf)]
+        LK = [(min(max(L, Lmin), N), K) for L, K in LK]
+        D = []
+        for L, K in LK:
+            d = rng.integers(0, N - L + 1, size=K)
+            D.append(np.sort(d) if spec.get("sort", True) else d)
+        f = np.sort(rng.uniform(0.0, 0.5, nf)) * fs
+        L = np.array([v[0] for v in LK], dtype=np.int64)
+        K = np.array([v[1] for v in LK], dtype=np.int64)
+        r = fs / L
+        return {"f": f, "r": r, "b": f / r, "L": L, "K": K, "navg": K.copy(), "D": D, "O": np.full(nf, float(a["olap"])), "nf": nf}
+    return user_plan
+
+
+def scheduler_arg(cfg):
+    """What is passed as `scheduler=`: the name, the library's function, a delegating wrapper or a custom scheduler."""
+    how = cfg.get("sched_as", "name")
+    if how == "name" or not isinstance(cfg["scheduler"], str):
+        return cfg["scheduler"]
+    if how == "custom":
+        return custom_scheduler(cfg["custom"])
+    from speckit import schedulers as _S
+    fn = {"lpsd": _S.lpsd_plan, "ltf": _S.ltf_plan, "vectorized_ltf": _S.vectorized_ltf_plan, "new_ltf": _S.new_ltf_plan}[cfg["scheduler"]]
+    if how == "function" or cfg["scheduler"] == "lpsd":
+        # (a wrapper around lpsd would be a custom scheduler that ignores Lmin, which the analyzer rightly rejects)
+        return fn
+
+    def user_scheduler(**a):       # a user-supplied scheduler that delegates to the library's
+        a.pop("num_patch_pts", None)
+        return fn(**a)
+    return user_scheduler
 
 
 def make_analyzer(data, fs, cfg, **override):
@@ -316,17 +365,7 @@ def make_analyzer(data, fs, cfg, **override):
         kw["verbose"] = True
     if c.get("psll_none") and "kaiser" not in c["win"]:
         kw["psll"] = None
-    if c.get("sched_as", "name") != "name" and isinstance(c["scheduler"], str):
-        from speckit import schedulers as _S
-        fn = {"lpsd": _S.lpsd_plan, "ltf": _S.ltf_plan, "vectorized_ltf": _S.vectorized_ltf_plan, "new_ltf": _S.new_ltf_plan}[c["scheduler"]]
-        if c["sched_as"] == "function" or c["scheduler"] == "lpsd":
-            # (a wrapper around lpsd would be a custom scheduler that ignores Lmin, which the analyzer rightly rejects)
-            kw["scheduler"] = fn
-        else:
-            def user_scheduler(**a):       # a user-supplied scheduler that delegates to the library's
-                a.pop("num_patch_pts", None)
-                return fn(**a)
-            kw["scheduler"] = user_scheduler
+    kw["scheduler"] = scheduler_arg(c)
     for k in ("band", "force_target_nf"):
         if k in c:
             kw[k] = c[k]
